@@ -57,6 +57,12 @@ def run_futures(events, cfg, symbols):
 
     for e in events:
         k = e['k']
+        if k == 'hook' and e.get('hook') in ('before', 'after') and isinstance(e.get('pos'), list) and isinstance(e.get('price'), float):
+            # the mark price behind unrealised PnL and margin: at a strategy step it is the close of the latest candle
+            c('mark_price_checks')
+            if e['pos'][2] is not None and e['pos'][2] != e['price']:
+                v('mark_price_differs_from_last_close', f"{e['hook']}() at index {e.get('index')}: position.current_price "
+                  f"{e['pos'][2]} but the current candle closes at {e['price']}", e)
         if k == 'submit':
             book[e['o']] = e
             mdl.submit(e['o'], e['symbol'], e['side'], e['qty'], e['price'], e['reduce_only'])
